@@ -937,7 +937,7 @@ def gen_raw_case(rng):
                 seq(d - 1)
                 calls.append(["o", ")"])
             elif r < 0.4:
-                calls.append(["k", rng.choice(VALS)])
+                calls.append(["k", rng.choice(VALS + ["inf", "-inf"]) if rng.random() < 0.3 else rng.choice(VALS)])
             else:
                 calls.append(["m", rng.choice(ids), rng.random() < 0.5])
             if rng.random() < 0.15:
